@@ -73,6 +73,12 @@ theorem C19_dc (s : State) (cs : List (String × String × Int)) (hwf : WF s.dat
     holdsOp (.dc cs, (step s (.dc cs)).2) = true :=
   dc_holds s cs hwf
 
+/-- `ExpiredShardGroups` on a truncated group still tests `EndTime` (as the code has it), so a
+    truncated group is never selected while points of `[StartTime, EndTime)` are inside the window -/
+theorem expired_truncated (r : RetentionPolicyInfo) (now : Int) (g : ShardGroupInfo)
+    (h : g ∈ expiredShardGroups r now) : g.EndTime + r.Duration < now :=
+  ((mem_expired_iff r now g).mp h).2.2.2
+
 /-- **C19**: on every history of operations the statement checker accepts the model's trace:
     `MapShards` rejects exactly the points older than `now − retention period` and reports their
     number; `ExpiredShardGroups` and `DeletionCheck` delete only groups lying entirely before
@@ -80,6 +86,22 @@ theorem C19_dc (s : State) (cs : List (String × String × Int)) (hwf : WF s.dat
     (Histories that leave the quantifier domain are not judged.) -/
 theorem C19_holdsOn (ops : List Op) : holdsOn (run State.init ops) = true := by
   unfold holdsOn
+  -- the expiry clause holds of every `exp` step, from any state (also after truncations)
+  have hexp : ∀ (l : List Op) (s : State), (run s l).all holdsExp = true := by
+    intro l
+    induction l with
+    | nil => intro s; rfl
+    | cons o os ih =>
+      intro s
+      simp only [run, List.all_cons, Bool.and_eq_true]
+      refine ⟨?_, ih _⟩
+      cases o with
+      | exp db rp D t =>
+        have := C19_exp s db rp D t
+        simp only [step] at this ⊢
+        split at this <;> simp_all [holdsOp, holdsExp]
+      | _ => simp [holdsExp]
+  rw [hexp ops State.init, Bool.true_and]
   by_cases hdom : ((run State.init ops).all fun p => opInDomain p.1) = true
   · have hd : ∀ op ∈ ops, opInDomain op = true := by
       have key : ∀ (s : State) (l : List Op), ((run s l).all fun p => opInDomain p.1) = true → ∀ op ∈ l, opInDomain op = true := by
